@@ -102,9 +102,7 @@ def sig_of(o) -> str:
 def load_findings(prop: str) -> dict:
     p = VERIF / "known_findings.json"
     out = {}
-    files = [p] if p.exists() else []
-    # development only: fragments proposed by check authors, merged into known_findings.json on review
-    files += sorted((VERIF / "proposed").glob("findings-*.json"))
+    files = [p] if p.exists() else []      # the committed file is the only source; nothing is added at run time
     for f in files:
         for e in json.loads(f.read_text())["findings"]:
             if e["property"] == prop:
